@@ -15,6 +15,12 @@ if ROUND == '1':
     SRC = '/tmp/seed_%s/out'
     NAME = '%s_%d'
     LOGPREFIX = 'out/patch'
+elif ROUND == '5':
+    PAIRS = [('/tmp/seed5_batch.sh', '/tmp/seedrun5.log'), ('/tmp/seed5_batch2.sh', '/tmp/seedrun5b.log')]
+    CONF = '/tmp/confirm_seeds5.log'
+    SRC = '/tmp/seedout5_%s'
+    NAME = '%s_r5_%d'
+    LOGPREFIX = 'seedout5_'
 elif ROUND == '4':
     PAIRS = [('/tmp/seed4_batch.sh', '/tmp/seedrun4.log'), ('/tmp/seed4_batch2.sh', '/tmp/seedrun4b.log'), ('/tmp/seed4_batch3.sh', '/tmp/seedrun4c.log')]
     CONF = '/tmp/confirm_seeds4.log'
